@@ -557,6 +557,17 @@ func stdEffects(vc *VC, full string, info *types.Info, c *ast.CallExpr, s tsubst
 			}
 		}
 		return e, true
+	case "slices.Insert":
+		// may write the array of s in place or allocate a new one
+		if info != nil && c != nil {
+			if t := info.TypeOf(c.Args[0]); t != nil {
+				if sl, ok := substType(t, s).Underlying().(*types.Slice); ok {
+					k := vc.sliceKind(sl.Elem())
+					e.R[k.Name], e.W[k.Name], e.A[k.Name] = k, k, k
+				}
+			}
+		}
+		return e, true
 	}
 	return nil, false
 }
